@@ -341,6 +341,36 @@ def float_enc(x: float, tail: bytes) -> bool:
     return done()
 
 
+def zero_spot(which: int) -> bool:
+    """
+    pre: 0 <= which < 4
+    post: __return__
+    """
+    # signed zeros in both orders within one value and across values (concrete, tracing suspended: the engine bypasses
+    # functools caches, so value-keyed memoisation is only visible to a concrete run)
+    w = pick(which, 4)
+    tn = "double" if w % 2 == 0 else "float"
+    with untraced():
+        fmt = "<d" if tn == "double" else "<f"
+        seqs = ([0.0, -0.0], [-0.0, 0.0]) if w < 2 else ([-0.0, 0.0, -0.0], [0.0])
+        ok = True
+        for vals in seqs:
+            e = bytes(_encode(vals, "sequence<%s>" % tn))
+            want = R.le_bytes_concrete(len(vals), 8) + b"".join(struct.pack(fmt, v) for v in vals)
+            ok = ok and e == want
+            back = _ser.decode(e, "sequence<%s>" % tn)
+            ok = ok and [math.copysign(1.0, b) for b in back] == [math.copysign(1.0, v) for v in vals]
+            for v in vals:
+                ok = ok and bytes(_encode(v, tn)) == struct.pack(fmt, v)
+        m = dict()
+        m[1] = True
+        ok = ok and bytes(_encode(m, "mapping<uint8_t,bool>")) == R.le_bytes_concrete(1, 8) + b"\x01\x01"
+        ok = ok and bytes(_encode([1, True, 1.0], "tuple<uint8_t,bool,double>")) == b"\x01\x01" + struct.pack("<d", 1.0)
+    if not ok:
+        return fail("signed zero / equal-but-distinct values (%s)" % tn)
+    return done()
+
+
 def nan_spot(which: int) -> bool:
     """
     pre: 0 <= which < 2
@@ -735,7 +765,8 @@ def seq_of_int(a: int, b: int, tail: bytes) -> bool:
         for i, x in enumerate(items):
             if R.le_value(raw[pre + n * i: pre + n * (i + 1)], n, signed) != x:
                 return fail("element %d is not the little-endian two's complement of the value" % i)
-    if RT():
+    if RT() or FMT():
+        # (FMT: raw was just shown to be the reference encoding, so this is cross-decoding of reference bytes)
         back, pos = _decode_at(raw + tail, ty)
         if shape == "sequence":
             ok = isinstance(back, list) and len(back) == 2 and back[0] == a and back[1] == b
